@@ -8,7 +8,7 @@
 (* the declarative ones; constants select the as-found variants, which TLC  *)
 (* must refute.                                                             *)
 (***************************************************************************)
-EXTENDS Containers
+EXTENDS Containers, Json, IOUtils
 
 CONSTANTS
   Kinds, MaxRows, MaxCols, MaxOff, MaxEdits,
@@ -49,12 +49,13 @@ Edits(g) ==
   \cup (IF RowStored(g.kind) THEN {[op |-> "flush", where |-> w, fill |-> GAP] : w \in 1..3} ELSE {})
   \cup {[op |-> "truncate", s |-> s, e |-> e] : s \in Start(g)..End(g), e \in Start(g)..End(g)}
 
-VARIABLES g, prev, last, n
-vars == <<g, prev, last, n>>
+VARIABLES g, prev, last, n, g0, edits
+vars == <<g, prev, last, n, g0, edits>>
 
 Init ==
   /\ \E k \in Kinds : g \in InitContainers(k)
   /\ prev = g /\ last = [op |-> "init"] /\ n = 0
+  /\ g0 = g /\ edits = <<>>
 
 Next ==
   /\ n < MaxEdits
@@ -62,7 +63,17 @@ Next ==
        /\ Defined(g, e)
        /\ g' = (IF e.op = "revcomp" THEN MirrorImpl(g, TRUE) ELSE IF e.op = "reverse" THEN MirrorImpl(g, FALSE) ELSE Apply(g, e))
        /\ last' = e
-  /\ prev' = g /\ n' = n + 1
+       /\ edits' = Append(edits, e)
+  /\ prev' = g /\ n' = n + 1 /\ UNCHANGED g0
+
+View == <<g, prev, last, n>>
+
+\* every history of the bounded model, for the real containers
+EmitHistories ==
+  (n = MaxEdits) =>
+    Serialize(ToJson([kind |-> g0.kind, rows |-> g0.rows, edits |-> edits]) \o "\n", IOEnv.OUT,
+              [format |-> "TXT", charset |-> "UTF-8",
+               openOptions |-> <<"WRITE", "CREATE", "APPEND">>]).exitValue = 0
 
 Spec == Init /\ [][Next]_vars
 
